@@ -41,6 +41,7 @@ func propGen(prop, tier string, idx int) GenOpts {
 		if idx%4 == 1 {
 			// one registration visible under several interface aliases / group memberships
 			o.PAs, o.PAs2, o.PGroup, o.PName = 450, 600, 450, 150
+			o.PAliasSkew = 400
 			o.WOp = [8]int{0, 8, 8, 4, 1, 0, 0, 0}
 		}
 		if idx%4 == 3 {
@@ -64,6 +65,7 @@ func propGen(prop, tier string, idx int) GenOpts {
 		if idx%4 == 1 {
 			// one registration visible under several interface aliases / group memberships
 			o.PAs, o.PAs2, o.PGroup, o.PName = 450, 600, 450, 150
+			o.PAliasSkew = 400
 			o.WOp = [8]int{0, 8, 9, 3, 0, 0, 0, 0}
 			o.PFocus = 150
 		}
@@ -107,6 +109,7 @@ func propGen(prop, tier string, idx int) GenOpts {
 		if idx%4 == 1 {
 			// one registration visible under several interface aliases / group memberships
 			o.PAs, o.PAs2, o.PGroup, o.PName = 500, 650, 450, 150
+			o.PAliasSkew = 400
 			o.WOp = [8]int{0, 8, 9, 2, 0, 0, 0, 0}
 		}
 		if idx%4 == 2 {
